@@ -16,7 +16,7 @@ type C05 struct{}
 
 func (C05) ID() string { return "C05" }
 func (C05) Rule() string {
-	return "lines `build ls <entries>` (hook buildRootsLeaves, compression none, exact bytes vs model), `optcheck ic budget <entries> C <certificate>` (hook optimizeDirectories on lists of 0, 1, 16383, 16384, 16385, 4096k±1 … 3e5 (thorough 2e6) entries from regular to incompressible; the decoded root, leaf lengths and decoded leaves are the certificate the model checks against the OptResult relation) and `finroot seed n` (real finalize() on incompressible entry lists tuned by bisection so the gzip root lands in the 127-byte window below/above the budget); non-trivial = at least 2 leaves or a root within 200 bytes of the budget; distinct by hash of the line"
+	return "lines `build ls <entries>` (hook buildRootsLeaves, compression none, exact bytes vs model), `optcheck ic budget <entries> C <certificate>` (hook optimizeDirectories on lists of 0, 1, 16383, 16384, 16385, 4096k±1 … 3e5 (thorough 2e6) entries from regular to incompressible; the decoded root, leaf lengths and decoded leaves are the certificate the model checks against the OptResult relation) and `finroot seed n` (real finalize() on incompressible entry lists tuned by bisection so the gzip root lands in the 127-byte window below/above the budget); `f32mul bits` / `f32init n` / `f32sched n ls` (the float32 leaf-size schedule: Go's `x *= 1.2`, `int(x)` and clamped initial value against the bit-exact model, and whether the leaf size the real loop settled on is a member of the modelled schedule — recorded, not a verdict); non-trivial = at least 2 leaves or a root within 200 bytes of the budget; distinct by hash of the line"
 }
 
 // ascending tile entries; style 0 = regular/compressible, 1 = incompressible (random deltas, lengths, scattered offsets)
@@ -228,6 +228,9 @@ func (C05) Gen(r *core.Rng, tier string, emit func(string)) {
 			f32Lines(emit)
 		}
 	}
+	for _, n := range []int{0, 1, 3500, 16384, 4096 * 3500 / 2, 14335999, 14335998, 14335744, 14336000, 1 << 24, 1<<24 + 1, r.Intn(14336000), r.Intn(14336000)} {
+		emit(fmt.Sprintf("f32init %d", n))
+	}
 	// one growth step on arbitrary float32 values from 4096 up to 2^63 (mantissas random, all-ones, ties)
 	for i := 0; i < 400; i++ {
 		exp := uint64(139 + r.Intn(51))
@@ -351,6 +354,18 @@ func (C05) RunGo(line string) string {
 		n, _ := strconv.Atoi(t[1])
 		ls, _ := strconv.Atoi(t[2])
 		return goSchedule(n, ls)
+	case "f32init":
+		// the initial leaf size after the clamp: exactly 4096 for every list of fewer than 4096*3500 entries
+		n, _ := strconv.Atoi(t[1])
+		if n >= 14336000 {
+			return "unmodelled"
+		}
+		var leafSize float32
+		leafSize = float32(n) / 3500
+		if leafSize < 4096 {
+			leafSize = 4096
+		}
+		return fmt.Sprintf("%d", math.Float32bits(leafSize))
 	case "finroot":
 		seed, _ := strconv.ParseUint(t[1], 10, 64)
 		n, _ := strconv.Atoi(t[2])
